@@ -60,3 +60,11 @@ package prelude
 //@   requires [generator_seeded_from_chain_state] rand_is_seeded(*arg0)
 //@   modifies *arg0
 //@   ensures 0 <= result && result < arg1 && result == rand_draw(old(*arg0), arg1) && *arg0 == rand_next(old(*arg0))
+//@ func github.com/cosmos/cosmos-sdk/telemetry.ModuleSetGauge
+//@   effectfree
+//@ func github.com/cosmos/cosmos-sdk/telemetry.SetGauge
+//@   effectfree
+//@ func github.com/cosmos/cosmos-sdk/telemetry.SetGaugeWithLabels
+//@   effectfree
+//@ func github.com/cosmos/cosmos-sdk/telemetry.MeasureSince
+//@   effectfree
